@@ -303,3 +303,10 @@ func traceN(c *run.Ctx) int {
 	}
 	return 600
 }
+
+func head(b []byte, n int) []byte {
+	if len(b) > n {
+		return b[:n]
+	}
+	return b
+}
